@@ -1,13 +1,6 @@
-import DrummerVerif.Model.Db
-/-! C18 prototype: M-AGENT — what the NodeHost agent reports and how it dispatches received requests -/
+import DrummerVerif.Model.Agent
+/-! C18 lemmas over M-AGENT -/
 namespace Drummer
-
-/-- client/nodehost.go:125-129: details are left out iff Drummer's advertised version is at least the local one
-    and the replica is not pending -/
-def reportIncomplete (advertised : Option Nat) (localCci : Nat) (pending : Bool) : Bool :=
-  match advertised with
-  | some k => decide (k ≥ localCci) && !pending
-  | none => false
 
 /-- C18 `never_hides_news` -/
 theorem never_hides_news (adv : Option Nat) (cci : Nat) (pending : Bool)
@@ -21,10 +14,6 @@ theorem never_hides_news (adv : Option Nat) (cci : Nat) (pending : Bool)
 /-- and nothing more than necessary is sent when Drummer is up to date -/
 theorem incomplete_when_current (k cci : Nat) (h : k ≥ cci) : reportIncomplete (some k) cci false = true := by
   unfold reportIncomplete; simp [h]
-
-/-- `HandleMasterRequests`: one worker per shard id, each handling the requests of its shard in arrival order -/
-def dispatch (reqs : List Request) : List (Nat × List Request) :=
-  (reqs.map (·.shardId)).eraseDups.map fun s => (s, reqs.filter (·.shardId == s))
 
 /-- C18 `dispatch_once_in_order`: every received request is handled by the worker of its shard, the worker's list is
     the arrival-order sublist of that shard's requests, and no worker handles a request of another shard -/
@@ -74,4 +63,32 @@ theorem dispatch_keys_nodup (reqs : List Request) : ((dispatch reqs).map (·.1))
   exact nodup_eraseDups _ _ (Nat.le_refl _)
 
 #print axioms dispatch_spec
+/-- C18 `report_lists_everything`: one list entry and one detail entry per hosted replica, in order -/
+theorem report_lists_everything (addr api : String) (locals : List LocalShard) (adv : List (Nat × Nat)) (li : Bool)
+    (log : List LogInfo) :
+    (agentReport addr api locals adv li log).shardIdList = locals.map (·.shardId) ∧
+    (agentReport addr api locals adv li log).shardInfo.map (fun i => (i.shardId, i.replicaId, i.cci, i.pending)) =
+      locals.map (fun l => (l.shardId, l.replicaId, l.cci, l.pending)) := by
+  unfold agentReport
+  simp [List.map_map, Function.comp_def]
+
+/-- C18 `never_hides_news`, whole report: a hosted replica whose shard is unknown to Drummer, or whose local version
+    is newer than the advertised one, or which is pending, is reported with its full membership -/
+theorem report_never_hides_news (addr api : String) (locals : List LocalShard) (adv : List (Nat × Nat)) (li : Bool)
+    (log : List LogInfo) (l : LocalShard) (hl : l ∈ locals)
+    (h : (adv.find? (·.1 == l.shardId)).map (·.2) = none ∨
+         (∃ k, (adv.find? (·.1 == l.shardId)).map (·.2) = some k ∧ k < l.cci) ∨ l.pending = true) :
+    ∃ i ∈ (agentReport addr api locals adv li log).shardInfo,
+      i.shardId = l.shardId ∧ i.replicaId = l.replicaId ∧ i.incomplete = false ∧ i.replicas = l.members := by
+  unfold agentReport
+  refine ⟨_, List.mem_map_of_mem hl, rfl, rfl, ?_, ?_⟩
+  · exact never_hides_news _ _ _ h
+  · simp [never_hides_news _ _ _ h]
+
+/-- C18 `loginfo_iff_announced` -/
+theorem loginfo_iff_announced (addr api : String) (locals : List LocalShard) (adv : List (Nat × Nat)) (li : Bool)
+    (log : List LogInfo) :
+    (agentReport addr api locals adv li log).plogIncluded = li ∧ (agentReport addr api locals adv li log).plogInfo = log :=
+  ⟨rfl, rfl⟩
+
 end Drummer
